@@ -6,6 +6,9 @@ import Gallia.Proofs.Lemmas.PySet
 import Gallia.Proofs.Lemmas.RandomizePy
 import Gallia.Proofs.Lemmas.RandomizePrefix
 import Gallia.Gen.C16Tables
+import Gallia.Model.VEcuRng
+import Gallia.Proofs.Lemmas.VEcuRng
+import Gallia.Gen.C16Handlers
 /-
   C16 — a random virtual ECU is fully determined by its seed and arguments; its model is well-formed.
 
@@ -432,5 +435,142 @@ example (draws : Nat → Bool) (choice : Nat → Nat) :
   have h := randomize_wellFormed ⟨[5, 0x60], [2, 3], [0x10, 0x3E], [0x22, 0x27]⟩ (by decide) (by decide) draws choice
   exact ⟨h.mandatory_sessions 5 (by decide), h.reachable _ (h.mandatory_sessions 0x60 (by decide)),
     h.returns _ (h.mandatory_sessions 5 (by decide))⟩
+
+/-! ### the request handlers (Model/VEcuRng.lean): answers are a function of seed, session state and request -/
+
+section handlers
+open Gallia.VEcuRng
+
+/-- the AST obligation: the handlers reachable from `respond_after_default`, the expressions that create / seed each of
+    their RNG objects, the global names and server attributes they read, the methods they call on the RNG objects, the
+    source of `stateful_rng` and of `class RNG`, and the service ids / response codes - regenerated from the working tree
+    on every run - are the ones the model was written against.  A handler that starts to draw from the global `random`
+    module, `time`, `os.urandom`, `id()`, `hash()` or from an RNG seeded from other expressions changes one of these
+    tables. -/
+theorem handler_rng_sources_agree :
+    Gen.C16Handlers.handlers = declaredHandlers ∧ Gen.C16Handlers.handlerSources = declaredSources ∧
+    Gen.C16Handlers.handlerFreeNames = declaredFreeNames ∧ Gen.C16Handlers.handlerDrawCalls = declaredDrawCalls ∧
+    Gen.C16Handlers.rngTexts = declaredTexts ∧ Gen.C16Handlers.sids = declaredSids ∧ Gen.C16Handlers.nrcs = declaredNrcs ∧
+    Gen.C16Handlers.rapidPowerShutDown = VEcuRng.rapidPowerShutDown :=
+  ⟨rfl, rfl, rfl, rfl, rfl, rfl, rfl, rfl⟩
+
+/-- every declared handler has its sources / names / draw calls declared, and the model's dispatch names only those -/
+theorem handler_tables_cover (req : Request) :
+    handlerName req = "-" ∨ (handlerName req ∈ declaredHandlers ∧ handlerName req ∈ declaredSources.map (·.1)) := by
+  cases req <;> simp [handlerName, declaredHandlers, declaredSources]
+
+/-- no SendKey in a history -/
+def KeyFree (hist : List Request) : Prop := ∀ r ∈ hist, depOf r ≠ .pendingSeed
+
+/-- Two virtual ECUs started with the same seed and the same arguments - in two processes: the seeded generators agree
+    (`random.Random(text)` is a function of the text: `hd`, `hc`, `he`), everything else (the fresh streams behind `RNG()`,
+    the ambient streams: global `random`, clock, ...) is arbitrary and different - offer the same model, and after the same
+    request history answer the next request identically, up to the bytes of a security-access seed.  Composes the
+    determinism of `randomize` with the handler layer.  SendKey is excluded: its answer compares the key with the (fresh)
+    seed handed out before, see `sendKey_answer_function_of_pending_seed`. -/
+theorem answer_function_of_seed_state_request (seed : Int) (p : Params) (hpar : HParams)
+    (md md' : String → Nat → Bool) (mc mc' : String → Nat → Nat)
+    (hd : ∀ t i, md t i = md' t i) (hc : ∀ t k, mc t k = mc' t k)
+    (chain : Randomize.Model → Nat → Request → Option Reply) (e e' : Env) (he : ∀ t cs, e.rngOf t cs = e'.rngOf t cs)
+    (hist : List Request) (hk : KeyFree hist) (next : Request) (hn : depOf next ≠ .pendingSeed) (n n' : Nat) :
+    let A := serverOf seed p hpar md mc chain
+    let B := serverOf seed p hpar md' mc' chain
+    A.services = B.services ∧
+    (run A e hist).1 = (run B e' hist).1 ∧
+    mask (respond A (e.at n) (run A e hist).2 next).1 = mask (respond B (e'.at n') (run B e' hist).2 next).1 := by
+  intro A B
+  have hAB : A = B := by
+    have e1 : md = md' := funext fun t => funext (hd t)
+    have e2 : mc = mc' := funext fun t => funext (hc t)
+    subst e1 e2; rfl
+  have her : e.rngOf = e'.rngOf := funext fun t => funext (he t)
+  rw [← hAB]
+  have h := runFrom_rel A e e' her hist hk 0 0 {} {} (Rel.refl _)
+  exact ⟨rfl, h.1, (respond_rel A (e.at n) (e'.at n') her h.2 next hn).1.mask⟩
+
+/-- whole transcripts: the masked answers to a SendKey-free history are the same in any two processes -/
+theorem transcript_function_of_seed (s : Server) (e e' : Env) (he : e.rngOf = e'.rngOf) (hist : List Request)
+    (hk : KeyFree hist) : (run s e hist).1 = (run s e' hist).1 :=
+  (runFrom_rel s e e' he hist hk 0 0 {} {} (Rel.refl _)).1
+
+/-- Which answers depend on the request history, and through what.  Every handler seeds through `stateful_rng`, so there
+    is no handler that is independent of the state altogether; but for every request except SendKey (`depOf req` is
+    `sessionOnly`: ECUReset, RoutineControl, Read / WriteDataByIdentifier, InputOutputControlByIdentifier,
+    ClearDiagnosticInformation, ReadDTCInformation, unhandled services; or `fresh`: RequestSeed) the answer sees the history
+    through the current session ONLY: two states with the same session - whatever was requested before, whatever
+    security-access seed is pending - give the same answer (up to the fresh seed bytes), and with the same fresh stream
+    the same answer and the same draws.
+    Partial: (full statement: "the answer to request k of a history is independent of all other requests that do not change
+    the session") SendKey is the exception by design; the inactivity reset of `UDSServerTransport.handle_request` (a
+    clock) and the default chain are outside this model (C13 / C14). -/
+theorem answer_independent_of_other_requests_partial (s : Server) (w w' : World) (hw : w.rngOf = w'.rngOf)
+    (st st' : State) (hs : st.session = st'.session) (req : Request) (hk : depOf req ≠ .pendingSeed) :
+    mask (respond s w st req).1 = mask (respond s w' st' req).1 ∧
+    (respond s w st req).1 = (respond s w st' req).1 ∧ (respond s w st req).2.2 = (respond s w st' req).2.2 ∧
+    (respond s w st req).2.1.session = (respond s w' st' req).2.1.session :=
+  ⟨(respond_reply_of_session s w w' hw hs req hk).mask, (respond_of_session s w hs req hk).1,
+   (respond_of_session s w hs req hk).2, respond_session s w w' hs req hk hw⟩
+
+/-- the history version: two SendKey-free histories that end in the same session -/
+theorem answer_independent_of_history_partial (s : Server) (e e' : Env) (he : e.rngOf = e'.rngOf) (h1 h2 : List Request)
+    (hs : (run s e h1).2.session = (run s e' h2).2.session) (req : Request) (hk : depOf req ≠ .pendingSeed) (n n' : Nat) :
+    mask (respond s (e.at n) (run s e h1).2 req).1 = mask (respond s (e'.at n') (run s e' h2).2 req).1 :=
+  (respond_reply_of_session s (e.at n) (e'.at n') he hs req hk).mask
+
+/-- Which string seeds the per-request generators: the seed texts of the RNG objects of a handler call, in order, are a
+    prefix of `plannedTexts` - a list computed from the server seed, the current session and the request alone (how far
+    the handler gets depends on the draws; which texts it uses does not).  `none` (an unseeded `RNG()`) occurs for
+    RequestSeed only. -/
+theorem seed_texts_function_of_seed_session_request (c : Cfg) (w : World) (sess : Nat) (req : Request) :
+    (handler c w sess req).2.map (·.1) <+: plannedTexts c sess req ∧
+    (none ∈ plannedTexts c sess req → ∃ t, req = .requestSeed t) := by
+  refine ⟨handler_texts c w sess req, ?_⟩
+  cases req <;> simp [plannedTexts]
+
+/-- ... and a handler call reads the seeded oracle at those texts only: two oracles that agree on the planned texts of the
+    request give the same answer and the same draws, whatever they return for any other text (another session, another
+    request, another server seed) and whatever the ambient streams are -/
+theorem handler_reads_seeded_streams_of_request_only (c : Cfg) (r r' : String → DrawStream) (f a a' : DrawStream)
+    (sess : Nat) (req : Request) (h : ∀ x, some x ∈ plannedTexts c sess req → r x = r' x) :
+    handler c ⟨r, f, a⟩ sess req = handler c ⟨r', f, a'⟩ sess req :=
+  handler_reads_planned_only c r r' f a a' sess req h
+
+/-- SendKey: the answer is a function of the default chain, the session, the pending security-access answer and the
+    request - it looks at no stream at all (no seeded generator, no fresh one, nothing ambient) -/
+theorem sendKey_answer_function_of_pending_seed (s : Server) (w w' : World) (st : State) (t : Nat) (key : List Nat) :
+    respond s w st (.sendKey t key) = respond s w' st (.sendKey t key) :=
+  respond_sendKey s w w' st t key
+
+/-- The global `random` module (and any other ambient source) is irrelevant: every handler is handed the ambient stream
+    of its request and the answers, the states and the draws of ANY history - SendKey included, unmasked - do not depend
+    on it.  (That the code hands its handlers nothing the model does not is `handler_rng_sources_agree` plus the recorded
+    draws of the harness.) -/
+theorem global_random_irrelevant (s : Server) (e : Env) (ambient' : Nat → DrawStream) (hist : List Request) :
+    run s e hist = run s { e with ambient := ambient' } hist ∧
+    ∀ (n : Nat) (st : State) (req : Request),
+      respond s (e.at n) st req = respond s (({ e with ambient := ambient' } : Env).at n) st req :=
+  ⟨runFrom_ambient s e { e with ambient := ambient' } rfl rfl hist 0 {}, fun n st req => respond_ambient s e.rngOf (e.fresh n) (e.ambient n) (ambient' n) st req⟩
+
+/-- the seed text of `stateful_rng`: server seed, session, `str()` of the arguments - e.g. ECUReset `11 04` in session 3
+    of the ECU with seed 42 draws from `random.Random("42|3b'\\x11\\x04'")` -/
+example : seedText 42 3 [pyBytesRepr [0x11, 0x04]] = "42|3b'\\x11\\x04'" := by decide
+
+/-- SendKey does depend on the history: nothing pending / the right key / a wrong key -/
+example :
+    let s : Server := ⟨⟨0, ⟨0, 0, 0⟩⟩, [], fun _ _ _ => none⟩
+    let w : World := ⟨fun _ _ => 0, fun _ => 0, fun _ => 0⟩
+    (respond s w ⟨1, none⟩ (.sendKey 2 [7, 7])).1 = .neg 0x27 0x24 ∧
+    (respond s w ⟨1, some (1, [7, 7])⟩ (.sendKey 2 [7, 7])).1 = .saKey 2 ∧
+    (respond s w ⟨1, some (1, [8])⟩ (.sendKey 2 [7, 7])).1 = .neg 0x27 0x35 := by
+  decide
+
+/-- the hypotheses are satisfiable by a non-trivial history (session change, reset, seed request, identifier services) -/
+example : KeyFree [.other 0x10, .requestSeed 1, .readDataById [0x22, 0xF1, 0x90] 0xF190, .ecuReset [0x11, 4] 4,
+    .reportDTCByStatusMask 0xFF] ∧ depOf (.routineControl [0x31, 1, 2, 3] 0x0203 1) ≠ .pendingSeed := by
+  constructor
+  · intro r hr; simp at hr; rcases hr with h | h | h | h | h <;> subst h <;> simp [depOf]
+  · simp [depOf]
+
+end handlers
 
 end Gallia.C16
